@@ -3,9 +3,15 @@ C18 — refinement of the regenerated fee arithmetic (LndModel.Gen.C18, produced
 from lnwallet/chainfee/rates.go, sweep/fee_bumper.go `calcCurrentConfTarget` and the
 `LinearFeeFunction` methods of sweep/fee_function.go) to the hand-written model `LndModel.C18`.
 
-The model computes with exact integers where the code computes in int64 / int32 / uint32; each
-refinement theorem states the exact domain on which they agree, and a checked witness of
-disagreement outside that domain follows it (these are findings about the MODEL's abstraction, at unrealistic inputs).
+The model reproduces the code's fixed-width arithmetic (int64 product of `FeeForWeight`, int32
+subtraction of `calcCurrentConfTarget`, int64 addition of `feeRateAtPosition`, uint32 additions
+of `Increment` / `IncreaseFeeRate`), so the refinement theorems of these functions are
+UNCONDITIONAL: they hold for all integers, in particular for every value of the Go types.  The
+only hypotheses left are the ranges of the Go types themselves where a Lean `Nat` of the model
+stands for a `uint32`/`uint64` (`wu < 2^63` is not needed; `ct`, `pos`, `p` need no bound at all).
+The former witnesses of disagreement (exact-integer model vs wrapping code) are kept as
+statements about the exact formulas (`*_exact` in C18/Lemmas.lean state the domains on which the
+code computes the exact value; the witnesses below show the domains are needed).
 
 Bound in the spec (trusted): `btcutil.Amount(l.deltaFeeRate).MulF64(float64(p) / 1000)` is the
 parameter `feeRateDelta`; the model calls it `M f.delta p 1000`.
@@ -24,20 +30,26 @@ theorem wrapI64_id (x : Int) (h : IsI64 x) : wrapI64 x = x := by
 theorem FeePerKwFloor_value : Gen.C18.FeePerKwFloor = 253 ∧ Gen.C18.AbsoluteFeePerKwFloor = 250 := by
   simp only [Gen.C18.FeePerKwFloor, Gen.C18.AbsoluteFeePerKwFloor, and_self]
 
-/-- `SatPerKWeight.FeeForWeight`: the regenerated int64 computation is the model's exact
-    `feeForWeight` whenever the weight fits int64 and the product does not overflow int64. -/
-theorem FeeForWeight_refines (rate : Int) (wu : Nat)
-    (hw : IsI64 (wu : Int)) (hp : IsI64 (rate * wu)) :
+theorem wrapI64_eq (x : Int) : C18.wrap64 x = wrapI64 x := rfl
+theorem wrapI32_eq (x : Int) : C18.wrap32 x = wrapI32 x := rfl
+
+/-- `SatPerKWeight.FeeForWeight`: the regenerated int64 computation IS the model's `feeForWeight`,
+    for every rate and weight (no hypothesis). -/
+theorem FeeForWeight_refines (rate : Int) (wu : Nat) :
     Gen.C18.SatPerKWeight_FeeForWeight rate wu = C18.feeForWeight rate wu := by
   first
-  | (simp only [Gen.C18.SatPerKWeight_FeeForWeight, C18.feeForWeight, wrapI64_id _ hw, wrapI64_id _ hp]; done)
-  | (simp only [Gen.C18.SatPerKWeight_FeeForWeight, C18.feeForWeight, wrapI64_id _ hw,
-      Int.mul_comm (wu : Int) rate, wrapI64_id _ hp]; done)  -- operands of the product commuted
+  | (simp only [Gen.C18.SatPerKWeight_FeeForWeight, C18.feeForWeight, wrapI64_eq]; done)
+  | (simp only [Gen.C18.SatPerKWeight_FeeForWeight, C18.feeForWeight, wrapI64_eq,
+      Int.mul_comm (wrapI64 (wu : Int)) rate]; done)  -- operands of the product commuted
 
-/-- Outside that domain they differ: 2^62 sat/kw · 4 wu wraps to 0 in Go. -/
+/-- The code (and now the model) is NOT the exact `rate·wu/1000` outside the int64 range of the
+    product: 2^62 sat/kw · 4 wu wraps to 0, and 2^62 sat/kw · 3 wu to a NEGATIVE fee.  Exactness
+    on the domain `InI64 (rate * wu)` is `C18.feeForWeight_exact`. -/
 theorem FeeForWeight_witness :
     Gen.C18.SatPerKWeight_FeeForWeight 4611686018427387904 4 = 0 ∧
-    C18.feeForWeight 4611686018427387904 4 = 18446744073709551 := by decide
+    C18.feeForWeight 4611686018427387904 4 = 0 ∧
+    Int.tdiv (4611686018427387904 * 4) 1000 = 18446744073709551 ∧
+    C18.feeForWeight 4611686018427387904 3 = -4611686018427387 := by decide
 
 /-- `FeeForWeightRoundUp` is the exact ceiling `⌈rate·wu/1000⌉` for non-negative rates (exact spec;
     the C18 model has no counterpart). -/
@@ -84,19 +96,24 @@ theorem SatPerKVByte_FeePerKWeight_exact (s : Int) :
 
 /-! ## calcCurrentConfTarget -/
 
-/-- `calcCurrentConfTarget`: equal to the model whenever `deadline - currentHeight` does not
-    overflow int32 (always the case for non-negative heights). -/
-theorem calcCurrentConfTarget_refines (height deadline : Int) (hd : IsI32 (deadline - height)) :
+/-- `calcCurrentConfTarget`: the regenerated int32 computation IS the model's, for all heights
+    (no hypothesis). -/
+theorem calcCurrentConfTarget_refines (height deadline : Int) :
     Gen.C18.calcCurrentConfTarget height deadline = (C18.calcCurrentConfTarget height deadline : Nat) := by
-  simp only [IsI32] at hd
-  have e : wrapI32 (deadline - height) = deadline - height := by simp only [wrapI32]; omega
-  simp only [Gen.C18.calcCurrentConfTarget, C18.calcCurrentConfTarget, e, wrapU32]
-  split <;> omega
+  simp only [Gen.C18.calcCurrentConfTarget, C18.calcCurrentConfTarget, wrapI32_eq]
+  by_cases h : wrapI32 (deadline - height) < 0
+  · simp only [h, if_true]; rfl
+  · simp only [h, if_false]
+    simp only [wrapI32, wrapU32] at h ⊢
+    omega
 
-/-- Outside (a negative current height): the int32 subtraction wraps and Go answers 0. -/
+/-- The code (and the model) differ from the exact `max 0 (deadline − height)` when the int32
+    subtraction wraps (a negative current height): Go answers 0 where the exact value is 2^31.
+    Exactness on the int32 range of the difference is `C18.calcCurrentConfTarget_exact`. -/
 theorem calcCurrentConfTarget_witness :
     Gen.C18.calcCurrentConfTarget (-1) 2147483647 = 0 ∧
-    C18.calcCurrentConfTarget (-1) 2147483647 = 2147483648 := by decide
+    C18.calcCurrentConfTarget (-1) 2147483647 = 0 ∧
+    (2147483647 : Int) - (-1) = 2147483648 := by decide
 
 /-! ## LinearFeeFunction -/
 
@@ -105,58 +122,55 @@ def ofResult (f : FeeFn) : Except Gen.C18.Err (Bool × Int × Int) → Except C1
   | .error .ErrMaxPosition => .error .maxPosition
   | .ok (b, cur, pos) => .ok ({ f with pos := pos.toNat, cur := cur }, b)
 
-/-- `feeRateAtPosition(p)`: equal to the model's `rateAt` whenever `startingFeeRate + delta` does
-    not overflow int64. -/
-theorem feeRateAtPosition_refines (M : MulDiv) (f : FeeFn) (p : Nat)
-    (h : IsI64 (f.start + M f.delta p 1000)) :
+/-- `feeRateAtPosition(p)` IS the model's `rateAt` (no hypothesis: the model wraps the int64
+    addition `startingFeeRate + delta` as the code does). -/
+theorem feeRateAtPosition_refines (M : MulDiv) (f : FeeFn) (p : Nat) :
     Gen.C18.LinearFeeFunction_feeRateAtPosition f.start f.end_ f.width p (M f.delta p 1000)
       = f.rateAt M p := by
-  simp only [Gen.C18.LinearFeeFunction_feeRateAtPosition, FeeFn.rateAt, wrapI64_id _ h]
+  simp only [Gen.C18.LinearFeeFunction_feeRateAtPosition, FeeFn.rateAt, wrapI64_eq]
   by_cases hp : p ≥ f.width
   · have hp' : (p : Int) ≥ f.width := by omega
     simp only [hp, hp', if_true]
   · have hp' : ¬ (p : Int) ≥ f.width := by omega
     simp only [hp, hp', if_false]
+    rfl
 
-/-- `increaseFeeRate(position)`. -/
-theorem increaseFeeRate_refines (M : MulDiv) (f : FeeFn) (p : Nat)
-    (h : IsI64 (f.start + M f.delta p 1000)) :
+/-- the addition does wrap in the code for a start near the int64 maximum (not a fee rate). -/
+theorem feeRateAtPosition_witness :
+    Gen.C18.LinearFeeFunction_feeRateAtPosition 9223372036854775807 9223372036854775807 10 1 1
+      = -9223372036854775808 := by decide
+
+/-- `increaseFeeRate(position)` (no hypothesis). -/
+theorem increaseFeeRate_refines (M : MulDiv) (f : FeeFn) (p : Nat) :
     ofResult f (Gen.C18.LinearFeeFunction_increaseFeeRate f.start f.end_ f.cur f.width f.pos p
       (M f.delta p 1000)) = f.increaseTo M p := by
   simp only [Gen.C18.LinearFeeFunction_increaseFeeRate, FeeFn.increaseTo,
-    feeRateAtPosition_refines M f p h]
+    feeRateAtPosition_refines M f p]
   by_cases hp : f.pos ≥ f.width
   · have hp' : (f.pos : Int) ≥ f.width := by omega
     simp only [hp, hp', if_true, ofResult]
   · have hp' : ¬ (f.pos : Int) ≥ f.width := by omega
     simp only [hp, hp', if_false, ofResult, Int.toNat_natCast]
 
-/-- `Increment()` = `increaseFeeRate(position + 1)`: equal to the model for all uint32 widths and
-    positions (the uint32 `position + 1` cannot wrap below the max-position guard). -/
-theorem Increment_refines (M : MulDiv) (f : FeeFn)
-    (hw : f.width < 4294967296) (_hpos : f.pos < 4294967296)
-    (h : IsI64 (f.start + M f.delta (f.pos + 1) 1000)) :
+/-- `Increment()` = `increaseFeeRate(position + 1)` with the uint32 addition (no hypothesis). -/
+theorem Increment_refines (M : MulDiv) (f : FeeFn) :
     ofResult f (Gen.C18.LinearFeeFunction_Increment f.start f.end_ f.cur f.width f.pos
-      (M f.delta (f.pos + 1) 1000)) = f.increment M := by
+      (M f.delta ((f.pos + 1) % u32Mod) 1000)) = f.increment M := by
   simp only [Gen.C18.LinearFeeFunction_Increment, FeeFn.increment]
-  by_cases hp : f.pos ≥ f.width
-  · have hp' : (f.pos : Int) ≥ f.width := by omega
-    simp only [Gen.C18.LinearFeeFunction_increaseFeeRate, FeeFn.increaseTo, hp, hp', if_true, ofResult]
-  · have e : wrapU32 ((f.pos : Int) + 1) = ((f.pos + 1 : Nat) : Int) := by simp only [wrapU32]; omega
-    rw [e]
-    exact increaseFeeRate_refines M f (f.pos + 1) h
+  have e : wrapU32 ((f.pos : Int) + 1) = (((f.pos + 1) % u32Mod : Nat) : Int) := by
+    simp only [wrapU32, u32Mod]; omega
+  rw [e]
+  exact increaseFeeRate_refines M f ((f.pos + 1) % u32Mod)
 
-/-- The new position computed by `IncreaseFeeRate` (uint32 arithmetic) is the model's `newPos`
-    for every width below the uint32 maximum. -/
-theorem IncreaseFeeRate_refines (M : MulDiv) (f : FeeFn) (ct : Nat)
-    (hw : f.width < 4294967295) (_hpos : f.pos < 4294967296) (hct : ct < 4294967296)
-    (h : IsI64 (f.start + M f.delta (f.newPos ct) 1000)) :
+/-- `IncreaseFeeRate(confTarget)`: the new position computed in uint32 arithmetic IS the model's
+    `newPos`, for every width and position; the conf target only needs to be a `uint32`. -/
+theorem IncreaseFeeRate_refines (M : MulDiv) (f : FeeFn) (ct : Nat) (hct : ct < 4294967296) :
     ofResult f (Gen.C18.LinearFeeFunction_IncreaseFeeRate f.start f.end_ f.cur f.width f.pos ct
       (M f.delta (f.newPos ct) 1000)) = f.increaseFeeRate M ct := by
   have enp : (if (ct : Int) < wrapU32 ((f.width : Int) + 1)
       then wrapU32 (wrapU32 ((f.width : Int) + 1) - ct) else 0) = ((f.newPos ct : Nat) : Int) := by
-    simp only [FeeFn.newPos, wrapU32]
-    by_cases hc : ct < f.width + 1
+    simp only [FeeFn.newPos, wrapU32, u32Mod]
+    by_cases hc : ct < (f.width + 1) % 4294967296
     · have hc' : (ct : Int) < ((f.width : Int) + 1) % 4294967296 := by omega
       simp only [hc, hc', if_true]; omega
     · have hc' : ¬ (ct : Int) < ((f.width : Int) + 1) % 4294967296 := by omega
@@ -167,30 +181,30 @@ theorem IncreaseFeeRate_refines (M : MulDiv) (f : FeeFn) (ct : Nat)
     simp only [hn, hn', if_true, ofResult, Int.toNat_natCast]
   · have hn' : ¬ ((f.newPos ct : Nat) : Int) ≤ f.pos := by omega
     simp only [hn, hn', if_false]
-    exact increaseFeeRate_refines M f (f.newPos ct) h
+    exact increaseFeeRate_refines M f (f.newPos ct)
 
-/-- At `width = 2^32 - 1` the code's `l.width+1` wraps to 0 and nothing is increased, while the
-    model (exact naturals) moves to the last position: the model's `newPos` is only valid for
-    widths below the uint32 maximum (unreachable: the constructor sets `width = confTarget - 1`). -/
+/-- At `width = 2^32 - 1` the code's `l.width+1` wraps to 0 and nothing is increased even for conf
+    target 1; the model now does the same (it used to move to the last position).  Such a width
+    cannot come out of `NewLinearFeeFunction` (`width = confTarget - 1 ≤ 2^32 - 2`,
+    `C18.newLinear_width_lt`), which is the hypothesis `ct < 2^32` of `ceiling_by_deadline`. -/
 theorem IncreaseFeeRate_witness :
     Gen.C18.LinearFeeFunction_IncreaseFeeRate 0 100 0 4294967295 0 1 0 = .ok (false, 0, 0) ∧
     (FeeFn.mk 0 100 0 4294967295 0 0).increaseFeeRate (fun _ _ _ => 0) 1
-      = .ok (FeeFn.mk 0 100 100 4294967295 4294967295 0, true) := ⟨rfl, rfl⟩
+      = .ok (FeeFn.mk 0 100 0 4294967295 0 0, false) := ⟨rfl, rfl⟩
 
-/-! ## Non-vacuity of the hypotheses -/
+/-! ## Non-vacuity / concrete evaluations -/
 
-example := FeeForWeight_refines 2500 1116 (by simp only [IsI64]; omega) (by simp only [IsI64]; omega)
+example := FeeForWeight_refines 2500 1116
 example : Gen.C18.SatPerKWeight_FeeForWeight 2500 1116 = 2790 := by decide
 example : Gen.C18.SatPerKWeight_FeeForWeightRoundUp 253 1001 = 254 := by decide
 example := FeeForWeightRoundUp_exact 253 1001 (by simp only [IsI64]; omega) (by decide)
-example := calcCurrentConfTarget_refines 800000 800144 (by simp only [IsI32]; omega)
+example := calcCurrentConfTarget_refines 800000 800144
 example : Gen.C18.calcCurrentConfTarget 800144 800000 = 0 := by decide
 example := IncreaseFeeRate_refines (fun a n d => a * n / d) ⟨1000, 50000, 1000, 143, 0, 342657⟩ 100
-  (by decide) (by decide) (by decide) (by simp only [IsI64, FeeFn.newPos]; decide)
+  (by decide)
 example : ofResult ⟨1000, 50000, 1000, 143, 0, 342657⟩
     (Gen.C18.LinearFeeFunction_IncreaseFeeRate 1000 50000 1000 143 0 100 15076)
       = .ok (⟨1000, 50000, 16076, 143, 44, 342657⟩, true) := rfl
 example := Increment_refines (fun a n d => a * n / d) ⟨1000, 50000, 1000, 143, 7, 342657⟩
-  (by decide) (by decide) (by simp only [IsI64]; decide)
 
 end LndModel.C18.GenRefine
